@@ -306,9 +306,41 @@ fn fam_steiner(name: &'static str, thorough_only: bool, f: WSimpleFam, ws: &'sta
     }
 }
 
+/// Steiner two-route network: terminals' shortest paths share the segment p..q, which has two equally short routes
+/// (through u and through v).  Paths from different sources may take different routes, the union then contains the
+/// cycle p-u-q-v, the spanning tree drops one of its edges and leaves a non-terminal leaf that must be pruned
+/// (repeatedly, with the optional pendant chain u-x).  Nodes: t1 t2 t3 t4 p q u v (+ x).
+const TWO_ROUTE: [(usize, usize); 10] = [(0, 4), (2, 4), (4, 6), (6, 5), (4, 7), (7, 5), (5, 1), (5, 3), (6, 8), (7, 8)];
+fn two_route_edges(idx: u64, k: u64) -> Vec<(usize, usize, i64)> {
+    let mut c = idx;
+    let mut v = vec![];
+    for (i, &(a, b)) in TWO_ROUTE.iter().enumerate() {
+        if i >= 8 {
+            // the two edges of the pendant node x: absent or weight 1
+            if c % 2 == 1 { v.push((a, b, 1)); }
+            c /= 2;
+        } else {
+            v.push((a, b, (c % k) as i64 + 1));
+            c /= k;
+        }
+    }
+    v
+}
+fn fam_two_route(name: &'static str, thorough_only: bool, k: u64) -> Family {
+    Family {
+        name,
+        thorough_only,
+        count: k.pow(8) * 4,
+        bounds: format!("steiner_tree: the 9-node two-route network (t1,t3 - p - u|v - q - t2,t4, optional pendant x on u and v) with every weight assignment in {{1..={}}}^8 x presence of the two pendant edges; every terminal set of size >= 2 inside one component", k),
+        run: Box::new(move |idx, ctx| { let e = two_route_edges(idx, k); ctx.nontrivial = true; steiner_case::<u32>(ctx, 9, &e, false, "u32"); steiner_case::<u8>(ctx, 9, &e, true, "u8, reverse insertion") }),
+        describe: Box::new(move |idx| json!({"algorithm": "steiner_tree", "n": 9, "edges": two_route_edges(idx, k)})),
+    }
+}
+
 fn families(a: &Args) -> Vec<Family> {
     let t = a.thorough();
     vec![
+        fam_two_route("steiner-two-route9", false, if t { 3 } else { 2 }),
         fam_simple("cliques-colouring", false, SimpleFam::new(0..=5, false, false), "maximal_cliques + dsatur_coloring", run_undirected_simple),
         fam_simple("cliques-colouring6", true, SimpleFam::new(6..=6, false, false), "maximal_cliques + dsatur_coloring", run_undirected_simple),
         fam_list("fas-lists3", false, ListFam::new(3, 4, true), "greedy_feedback_arc_set", run_fas),
